@@ -358,8 +358,8 @@ example :
 theorem source_is_expected_ir : Gen.PyIRRd.prog = PyIRRd.Expected.prog ∧ Gen.PyIRRd.notes = [] := by decide
 
 /-- **The subject of every C06 theorem is the interpreted source**: `parse plist fromKdBuf prior data` — for EVERY byte
-    string, truncated or not — is the translated `parse` / `parse_v2` / `parse_v3` (to the end of its chunk loop) /
-    `seek_until` / `set_thread_map` run by the interpreter, followed by the hand-modelled tail of `parse_v3`. -/
+    string, truncated or not — is the translated `parse` / `parse_v2` / `parse_v3` (whole) /
+    `seek_until` / `set_thread_map` run by the interpreter. -/
 theorem parse_is_interpreted_source (plist : Bytes → Option PView) (prior : PState) (data : Bytes) :
     parse plist fromKdBuf prior data = PyIRRd.parseVia Gen.PyIRRd.prog plist fromKdBuf prior data :=
   PyIRRd.parse_eq_parseVia_gen source_is_expected_ir plist prior data
